@@ -1389,6 +1389,105 @@ def run_refdata(ctx: C.Ctx, only: Optional[Tuple[str, str]] = None) -> None:
                 bad("metrics", f + "/" + k, b.get(k), a.get(k))
 
 
+# --- independent validation of the data tables (no copy of pdfminer's data involved) -----------------------------
+
+# codes where ISO 32000-1 Annex D deliberately differs from the platform codec (footnotes of Table D.2)
+CODEC_EXCEPTIONS = {
+    ("WinAnsiEncoding", 0xA0): " ",      # "SPACE shall also be encoded as 240 (octal) in WinAnsiEncoding"
+    ("WinAnsiEncoding", 0xAD): "-",      # "HYPHEN shall also be encoded as 255 (octal) in WinAnsiEncoding"
+    ("MacRomanEncoding", 0xCA): " ",     # "SPACE shall also be encoded as 312 (octal) in MacRomanEncoding"
+    ("MacRomanEncoding", 0xDB): "\u00a4",  # currency (Python's mac_roman is the post-1998 table with the Euro sign)
+    ("StandardEncoding", 0x27): "\u2019",  # quoteright
+    ("StandardEncoding", 0x60): "\u2018",  # quoteleft
+}
+# characters of Mac OS Roman that are not in the PDF Latin character set (absent from PDF's MacRomanEncoding)
+MAC_ABSENT = {0xAD, 0xB0, 0xB2, 0xB3, 0xB6, 0xB7, 0xB8, 0xB9, 0xBA, 0xBD, 0xC3, 0xC5, 0xC6, 0xD7, 0xF0}
+CODEC_OF = {"WinAnsiEncoding": ("cp1252", range(32, 256)), "MacRomanEncoding": ("mac_roman", range(32, 256)),
+            "PDFDocEncoding": ("latin-1", list(range(32, 127)) + [c for c in range(0xA1, 0x100) if c != 0xAD]),
+            "StandardEncoding": ("ascii", range(32, 127))}
+ACCENTS = {"acute": "\u0301", "grave": "\u0300", "circumflex": "\u0302", "dieresis": "\u0308", "tilde": "\u0303",
+           "ring": "\u030a", "caron": "\u030c", "cedilla": "\u0327", "macron": "\u0304", "breve": "\u0306",
+           "ogonek": "\u0328", "dotaccent": "\u0307", "hungarumlaut": "\u030b",
+           "commaaccent": "\u0327"}   # AGL names the Unicode 1.x "cedilla" letters "commaaccent"
+ACCENT_EXCEPTIONS = {"dmacron": "\u0111", "ldotaccent": "\u0140", "Ldotaccent": "\u013f",   # AGL: d with stroke, L with middle dot
+                     "Scommaaccent": "\u0218", "scommaaccent": "\u0219"}                  # the one real comma-below pair
+GREEK = ["Alpha", "Beta", "Gamma", "Epsilon", "Zeta", "Eta", "Theta", "Iota", "Kappa", "Nu", "Xi", "Omicron", "Pi",
+         "Rho", "Sigma", "Tau", "Upsilon", "Phi", "Chi", "Psi"]   # Delta/Omega/mu are the symbol code points in AGL
+
+
+def independent_checks(only: Optional[Tuple[str, str]] = None):
+    """Yields (table, key, expected, got) for every entry checked; expected comes from Python's codecs /
+    unicodedata / the AGL rules, never from pdfminer's tables."""
+    import string
+    import unicodedata
+    from pdfminer.encodingdb import EncodingDB, name2unicode
+    d = data()
+    for enc, (codec, codes) in CODEC_OF.items():
+        col = ENC_COL[enc]
+        table: Dict[int, str] = {}
+        for row in d["enc"]:
+            if row[col]:
+                table[row[col]] = d["gl"].get(row[0])      # through the glyph list only (not via name2unicode)
+        for c in codes:
+            key = "%s/%d" % (enc, c)
+            if only and only != ("codec", key):
+                continue
+            try:
+                e = bytes([c]).decode(codec)
+            except UnicodeDecodeError:
+                e = None
+            if e is not None and not e.isprintable() and e != "\xa0" and e != "\xad":
+                e = None
+            e = CODEC_EXCEPTIONS.get((enc, c), e)
+            if enc == "MacRomanEncoding" and c in MAC_ABSENT:
+                e = None
+            g = table.get(c)
+            yield ("codec", key, e, g)
+            # the table the implementation actually serves must be the same thing
+            yield ("codec-impl", key, g, EncodingDB.get_encoding(enc).get(c))
+    gl = d["gl"]
+    for L in string.ascii_letters + string.digits:
+        nm = L if L.isalpha() else ["zero", "one", "two", "three", "four", "five", "six", "seven", "eight", "nine"][int(L)]
+        if not only or only == ("unicodedata", nm):
+            yield ("unicodedata", nm, L, gl.get(nm))
+        if L.isalpha():
+            for a, cm in ACCENTS.items():
+                nm = L + a
+                if nm in gl and (not only or only == ("unicodedata", nm)):
+                    exp = ACCENT_EXCEPTIONS.get(nm, unicodedata.normalize("NFC", L + cm))
+                    yield ("unicodedata", nm, exp, gl[nm])
+    for gname in GREEK:
+        for nm, un in ((gname, "GREEK CAPITAL LETTER " + gname.upper()), (gname.lower(), "GREEK SMALL LETTER " + gname.upper())):
+            if nm in gl and (not only or only == ("unicodedata", nm)):
+                yield ("unicodedata", nm, unicodedata.lookup(un), gl[nm])
+    # self-consistency of list and uniXXXX rule: spelling the value of an entry as uniXXXX.. gives the value back,
+    # values are 1-4 scalar values, names are non-empty printable ASCII without '.', '_' or '/'
+    for nm, v in gl.items():
+        if only and only != ("selfconsistency", nm):
+            continue
+        ok_shape = (1 <= len(v) <= 4 and all(_scalar(ord(ch)) for ch in v) and nm != "" and
+                    all(33 <= ord(ch) < 127 and ch not in "._/" for ch in nm))
+        yield ("selfconsistency", nm, True, ok_shape)
+        if all(ord(ch) <= 0xFFFF for ch in v):
+            uni = "uni" + "".join("%04X" % ord(ch) for ch in v)
+            try:
+                back = name2unicode(uni)
+            except Exception as e:  # noqa: BLE001
+                back = "EXC:" + type(e).__name__
+            yield ("selfconsistency", nm, v, back)
+
+
+def run_independent(ctx: C.Ctx, only: Optional[Tuple[str, str]] = None) -> None:
+    for table, key, exp, got in independent_checks(only):
+        ctx.case(("indep", table, key, repr(exp)), True, branch="independent:" + table)
+        if exp != got:
+            ctx.fail(C.Failure("font data table differs from an independent source (platform codec / unicodedata / "
+                               "AGL rule)", {"op": "table-indep", "table": table, "key": key},
+                               None if exp is None else (cps(exp) if isinstance(exp, str) else exp),
+                               None if got is None else (cps(got) if isinstance(got, str) else got),
+                               {"op": "table-indep", "table": table}))
+
+
 def run_tables(ctx: C.Ctx) -> None:
     """The regenerated Lean tables equal the Python objects (data tie)."""
     if ctx.driver is None:
@@ -1436,10 +1535,13 @@ def replay(ctx: C.Ctx, doc, from_corpus: bool = False) -> None:
         check_fonts(ctx, [(inp["font"], [label])])
     elif op == "table":
         run_refdata(ctx, (inp["table"], inp["key"]))
+    elif op == "table-indep":
+        run_independent(ctx, (inp["table"].replace("codec-impl", "codec"), inp["key"]))
 
 
 def run(ctx: C.Ctx) -> None:
     run_corpus(ctx)
+    run_independent(ctx)
     run_refdata(ctx)
     run_tables(ctx)
     run_utf16(ctx)
